@@ -127,7 +127,7 @@ theorem fs_sections :
 theorem bolt_sections :
     traceOf "s3bolt.Backend.PutObject" =
       [("call", "ReadAll"), ("gate", "s3bolt.PutObject.afterRead"), ("call", "MergeMetadata"), ("gate", "s3bolt.PutObject.afterMerge"),
-       ("call", "Now"), ("call", "Update"), ("closure", "")] ∧
+       ("call", "Now"), ("call", "Update"), ("closure", ""), ("call", "Put")] ∧
     ["s3bolt.Backend.DeleteObject", "s3bolt.Backend.DeleteMulti", "s3bolt.Backend.DeleteBucket", "s3bolt.Backend.CreateBucket",
      "s3bolt.Backend.ForceDeleteBucket"].all (fun n => ((traceOf n).filter (· == ("call", "Update"))).length == 1) = true ∧
     ["s3bolt.Backend.GetObject", "s3bolt.Backend.ListBucket", "s3bolt.Backend.ListBuckets", "s3bolt.Backend.BucketExists"].all
